@@ -2,10 +2,32 @@ use crate::util::Report;
 use crate::Ctx;
 
 pub mod c17;
+pub mod hard;
 pub mod layers;
+pub mod simple;
+pub mod tables;
 
 pub fn run(prop: &str, ctx: &Ctx) -> Option<Report> {
     match prop {
+        "C01" => Some(tables::c01(ctx)),
+        "C02" => Some(tables::c02(ctx)),
+        "C03" => Some(tables::c03(ctx)),
+        "C04" => Some(tables::c04(ctx)),
+        "C05" => Some(tables::c05(ctx)),
+        "C19" => Some(tables::c19(ctx)),
+        "C06" => Some(hard::c06(ctx)),
+        "C07" => Some(hard::c07(ctx)),
+        "C08" => Some(hard::c08(ctx)),
+        "C10" => Some(hard::c10(ctx)),
+        "C12" => Some(hard::c12(ctx)),
+        "C14" => Some(hard::c14(ctx)),
+        "C18" => Some(hard::c18(ctx)),
+        "C09" => Some(simple::c09(ctx)),
+        "C11" => Some(simple::c11(ctx)),
+        "C13" => Some(simple::c13(ctx)),
+        "C15" => Some(simple::c15(ctx)),
+        "C16" => Some(simple::c16(ctx)),
+        "C20" => Some(simple::c20(ctx)),
         "C17" => Some(c17::run(ctx)),
         "LAYERS" => Some(layers::run(ctx)),
         _ => None,
